@@ -45,6 +45,23 @@ Section Statements.
                   /\ get (grefs s3) n = get (grefs s2) n).
   Proof. exact (converge_after_any_history anc). Qed.
 
+  (** The second import is the identity on the view literally (the same maps), provided the
+      recorded Git refs carry no explicit absent entry (View::set_git_ref_target never stores
+      one); this holds after every history. *)
+  Theorem C34_second_import_identity : forall (s : view) (g : gmap),
+    NoDup (keys g) -> wf_map (grefs s) ->
+    let s1 := import_refs anc s g in
+    let '(s2, g2, _) := export_refs s1 g in
+    import_refs anc s2 g2 = s2.
+  Proof. exact (second_import_is_identity anc). Qed.
+
+  Theorem C34_second_import_identity_after_any_history : forall (steps : list step),
+    let '(s, g) := run anc steps in
+    let s1 := import_refs anc s g in
+    let '(s2, g2, _) := export_refs s1 g in
+    import_refs anc s2 g2 = s2.
+  Proof. exact (second_import_is_identity_after_any_history anc). Qed.
+
   (** A change made on one side only reaches the other side.
       Git side only (the local bookmark still equals the @git bookmark): the import moves the
       local bookmark to Git's value.  jj side only (Git's branch still equals the @git
@@ -168,6 +185,7 @@ Proof. vm_compute. repeat split. Qed.
 
 Print Assumptions C34_converge.
 Print Assumptions C34_converge_after_any_history.
+Print Assumptions C34_second_import_identity_after_any_history.
 Print Assumptions C34_one_sided_propagates.
 Print Assumptions C34_conflict_not_overwrite.
 Print Assumptions C34_export_never_overwrites.
